@@ -170,42 +170,41 @@ def _read_all(name, siz, n, vals, guard, beg0, elm, budget, unroll, per_request)
         logix.Logix.MAX_BYTES = saved
 
 
-@obligation('C04', timeout=900, path_timeout=120, drives=DRIVEN,
-            symbolic=['v0..v5 (tag contents, full INT range)', 'beg0', 'elm', 'budget (Logix.MAX_BYTES 1..5)'],
-            bounds='INT[6] tag; every start/count inside the tag; class budget Logix.MAX_BYTES in 1..5 bytes (all alignments '
-                   'of range end vs. budget); <= 6 fragments (unwinding asserted)',
-            outside='tags longer than 6; budgets > 5 bytes with > 6 elements')
-def read_transfer_INT(v0: int, v1: int, v2: int, v3: int, v4: int, v5: int, beg0: int, elm: int, budget: int) -> bool:
-    """
-    pre: all(-32768 <= v <= 32767 for v in (v0, v1, v2, v3, v4, v5))
-    pre: 0 <= beg0 and 1 <= elm and beg0 + elm <= 6 and 1 <= budget <= 5
+def _mk_read_transfer(tag, cls, siz, n, budget, per_request, tier):
+    lo, hi = sim.RANGE[cls.__name__]
+    name = 'read_xfer_%s_%s%d' % (cls.__name__, 'maxsize' if per_request else 'MAXBYTES', budget)
+    params = ", ".join("v%d: int" % i for i in range(n))
+    src = (
+        "def {name}({params}, beg0: int, elm: int) -> bool:\n"
+        "    return _read_all({tag!r}, {siz}, {n}, [{vs}], [7, 8, 9], beg0, elm, {budget}, {n}, {per_request})\n"
+    ).format(name=name, params=params, tag=tag, siz=siz, n=n, vs=", ".join("v%d" % i for i in range(n)),
+             budget=budget, per_request=per_request)
+    ns = {}
+    exec(compile(src, __file__, 'exec'), globals(), ns)
+    f = ns[name]
+    f.__module__ = __name__
+    f.__doc__ = """
+    pre: all({lo} <= v <= {hi} for v in ({vs},))
+    pre: 0 <= beg0 and 1 <= elm and beg0 + elm <= {n}
     post: _
-    """
-    return _read_all('I', 2, 6, [v0, v1, v2, v3, v4, v5], [7, 8, 9], beg0, elm, budget, 6, False)
+    """.format(lo=lo, hi=hi, vs=", ".join("v%d" % i for i in range(n)), n=n)
+    globals()[name] = obligation(
+        'C04', tier=tier, timeout=900, path_timeout=120, drives=DRIVEN,
+        symbolic=['v0..v%d (tag contents, full %s range)' % (n - 1, cls.__name__), 'beg0 (start element)', 'elm (count)'],
+        bounds='%s[%d] tag, every start/count inside the tag, reply budget %d bytes via %s; client loop "advance offset by '
+               'bytes received" unrolled %d times with unwinding assertion' % (
+                   cls.__name__, n, budget, 'per-request max_size' if per_request else 'class attribute Logix.MAX_BYTES', n),
+        outside='tags longer than %d elements' % n)(f)
 
 
-@obligation('C04', timeout=900, path_timeout=120, drives=DRIVEN,
-            symbolic=['v0..v5 (tag contents, full DINT range)', 'beg0', 'elm', 'budget (per-request max_size 1..9)'],
-            bounds='DINT[6] tag; every start/count inside the tag; per-request max_size in 1..9 bytes; <= 6 fragments',
-            outside='tags longer than 6')
-def read_transfer_DINT(v0: int, v1: int, v2: int, v3: int, v4: int, v5: int, beg0: int, elm: int, budget: int) -> bool:
-    """
-    pre: all(-2**31 <= v < 2**31 for v in (v0, v1, v2, v3, v4, v5))
-    pre: 0 <= beg0 and 1 <= elm and beg0 + elm <= 6 and 1 <= budget <= 9
-    post: _
-    """
-    return _read_all('D', 4, 6, [v0, v1, v2, v3, v4, v5], [7, 8, 9], beg0, elm, budget, 6, True)
-
-
-@obligation('C04', timeout=900, path_timeout=120, drives=DRIVEN,
-            bounds='SINT[6] tag; every start/count; class budget 1..3 bytes; <= 6 fragments', outside='tags longer than 6')
-def read_transfer_SINT(v0: int, v1: int, v2: int, v3: int, v4: int, v5: int, beg0: int, elm: int, budget: int) -> bool:
-    """
-    pre: all(-128 <= v <= 127 for v in (v0, v1, v2, v3, v4, v5))
-    pre: 0 <= beg0 and 1 <= elm and beg0 + elm <= 6 and 1 <= budget <= 3
-    post: _
-    """
-    return _read_all('S', 1, 6, [v0, v1, v2, v3, v4, v5], [7, 8, 9], beg0, elm, budget, 6, False)
+for _b in (1, 2, 3, 4, 5):
+    _mk_read_transfer('I', parser.INT, 2, 6, _b, False, 'quick' if _b in (1, 3, 4) else 'thorough')
+for _b in (1, 4, 5, 7, 8, 9):
+    _mk_read_transfer('D', parser.DINT, 4, 6, _b, True, 'quick' if _b in (5, 8) else 'thorough')
+for _b in (1, 2, 3):
+    _mk_read_transfer('S', parser.SINT, 1, 6, _b, False, 'quick' if _b == 2 else 'thorough')
+for _b in (1, 8, 9, 15, 16, 17):
+    _mk_read_transfer('Q', parser.LINT, 8, 5, _b, True, 'quick' if _b == 9 else 'thorough')
 
 
 def _write_tiled(name, siz, n, init, guard, beg0, pieces, vals):
@@ -226,8 +225,7 @@ def _write_tiled(name, siz, n, init, guard, beg0, pieces, vals):
             return False
         at += p
         off += p * siz
-    exp = list(init)
-    exp[beg0:beg0 + elm] = vals
+    exp = list(init[:beg0]) + list(vals) + list(init[beg0 + elm:])
     r = cpppo.dotdict()
     r.path = sim.tagpath(name)
     r.read_tag = {'elements': n}
@@ -236,27 +234,45 @@ def _write_tiled(name, siz, n, init, guard, beg0, pieces, vals):
             and list(g.value) == list(guard))
 
 
-@obligation('C04', timeout=900, path_timeout=120, drives=DRIVEN,
-            symbolic=['i0..i5 (initial contents)', 'w0..w3 (written values)', 'beg0', 'cut1', 'cut2'],
-            bounds='INT[6] tag; range of 4 elements at start 0..2 tiled by 1..3 Write Tag Fragmented pieces (cuts symbolic); '
-                   'all values full INT range', outside='ranges longer than 4 elements')
-def write_tiling_INT(i0: int, i1: int, i2: int, i3: int, i4: int, i5: int, w0: int, w1: int, w2: int, w3: int,
-                     beg0: int, cut1: int, cut2: int) -> bool:
-    """
-    pre: all(-32768 <= v <= 32767 for v in (i0, i1, i2, i3, i4, i5, w0, w1, w2, w3))
-    pre: 0 <= beg0 <= 2 and 1 <= cut1 <= cut2 <= 4
-    post: _
-    """
-    pieces = [p for p in (cut1, cut2 - cut1, 4 - cut2) if p]
-    return _write_tiled('I', 2, 6, [i0, i1, i2, i3, i4, i5], [7, 8, 9], beg0, pieces, [w0, w1, w2, w3])
+def _compositions(total, maxparts):
+    if total == 0:
+        yield []
+        return
+    if maxparts == 0:
+        return
+    for first in range(1, total + 1):
+        for rest in _compositions(total - first, maxparts - 1):
+            yield [first] + rest
 
 
-@obligation('C04', tier='thorough', timeout=1800, path_timeout=120, drives=DRIVEN,
-            bounds='LINT[5] tag; every start/count; per-request max_size 1..17 bytes; <= 5 fragments', outside='')
-def read_transfer_LINT(v0: int, v1: int, v2: int, v3: int, v4: int, beg0: int, elm: int, budget: int) -> bool:
-    """
-    pre: all(-2**63 <= v < 2**63 for v in (v0, v1, v2, v3, v4))
-    pre: 0 <= beg0 and 1 <= elm and beg0 + elm <= 5 and 1 <= budget <= 17
+def _mk_write_tiling(tag, cls, siz, n, beg0, pieces, tier):
+    lo, hi = sim.RANGE[cls.__name__]
+    k = sum(pieces)
+    name = 'write_tile_%s_at%d_%s' % (cls.__name__, beg0, "_".join(map(str, pieces)))
+    ivs = ["i%d" % i for i in range(n)]
+    wvs = ["w%d" % i for i in range(k)]
+    src = (
+        "def {name}({params}) -> bool:\n"
+        "    return _write_tiled({tag!r}, {siz}, {n}, [{ivs}], [7, 8, 9], {beg0}, {pieces!r}, [{wvs}])\n"
+    ).format(name=name, params=", ".join(v + ": int" for v in ivs + wvs), tag=tag, siz=siz, n=n, ivs=", ".join(ivs),
+             beg0=beg0, pieces=pieces, wvs=", ".join(wvs))
+    ns = {}
+    exec(compile(src, __file__, 'exec'), globals(), ns)
+    f = ns[name]
+    f.__module__ = __name__
+    f.__doc__ = """
+    pre: all({lo} <= v <= {hi} for v in ({vs},))
     post: _
-    """
-    return _read_all('Q', 8, 5, [v0, v1, v2, v3, v4], [7, 8, 9], beg0, elm, budget, 5, True)
+    """.format(lo=lo, hi=hi, vs=", ".join(ivs + wvs))
+    globals()[name] = obligation(
+        'C04', tier=tier, timeout=600, path_timeout=120, drives=DRIVEN,
+        symbolic=['i* (initial contents)', 'w* (written values)'],
+        bounds='%s[%d] tag; %d elements at start %d written by Write Tag Fragmented pieces %r (offsets tile the range); all '
+               'values full range; then whole-tag Read Tag' % (cls.__name__, n, k, beg0, pieces),
+        outside='')(f)
+
+
+for _i, _p in enumerate(_compositions(4, 3)):
+    _mk_write_tiling('I', parser.INT, 2, 6, _i % 3, _p, 'quick' if _i % 2 == 0 else 'thorough')
+for _i, _p in enumerate(_compositions(3, 3)):
+    _mk_write_tiling('D', parser.DINT, 4, 6, (_i * 2) % 4, _p, 'quick' if _i % 2 == 1 else 'thorough')
